@@ -27,19 +27,43 @@ Definition bash_quote (s : str) : str :=
 
 Definition bash_join (ts : list str) : str := join [32] (map bash_quote ts).
 
-(* analyzer._strip_quotes: what the walker makes of a word's source text *)
-Definition strip_quotes (v : str) : str :=
-  match v with
-  | a :: r =>
-      match rev r with
-      | b :: mid => if (N.eqb a DQ && N.eqb b DQ) || (N.eqb a SQ && N.eqb b SQ) then rev mid else v
-      | [] => v
+(* analyzer._strip_quotes (quote removal, mirrored here because the walker is another model):
+   words without quote or backslash, and words with a dollar sign right before a quote, are returned
+   unchanged; otherwise literal text, single-quoted segments, double-quoted segments (backslash only
+   before dollar, backquote, double quote, backslash, newline) and backslash escapes are undone; an
+   unterminated quote gives the word back unchanged. *)
+Definition BS : N := 92.
+Definition DOLLAR : N := 36.
+Inductive ustate := UOut | USq | UDq | UOutBs | UDqBs.
+Definition dq_escapable : list N := [36; 96; 34; 92].      (* dollar backquote dquote backslash *)
+Fixpoint unq (s : str) (st : ustate) : option str :=
+  match s with
+  | [] => match st with UOut => Some [] | UOutBs => Some [BS] | _ => None end
+  | c :: r =>
+      let keep (k : option str) := match k with Some x => Some (c :: x) | None => None end in
+      match st with
+      | UOut => if N.eqb c SQ then unq r USq
+                else if N.eqb c DQ then unq r UDq
+                else if N.eqb c BS then unq r UOutBs
+                else keep (unq r UOut)
+      | UOutBs => if N.eqb c 10 then unq r UOut else keep (unq r UOut)
+      | USq => if N.eqb c SQ then unq r UOut else keep (unq r USq)
+      | UDq => if N.eqb c DQ then unq r UOut
+               else if N.eqb c BS then unq r UDqBs
+               else keep (unq r UDq)
+      | UDqBs => if mem_ch c dq_escapable then keep (unq r UDq)
+                 else if N.eqb c 10 then unq r UDq
+                 else match unq r UDq with Some x => Some (BS :: c :: x) | None => None end
       end
-  | [] => v
   end.
+Definition has_dollar_quote (v : str) : bool := infixb [DOLLAR; SQ] v || infixb [DOLLAR; DQ] v.
+Definition strip_quotes (v : str) : str :=
+  if negb (mem_ch SQ v) && negb (mem_ch DQ v) && negb (mem_ch BS v) then v
+  else if has_dollar_quote v then v
+  else match unq v UOut with Some x => x | None => v end.
 
 (* the string the ladder receives for a word that bash_quote wrote and the parser read back as
-   one word: outer quotes stripped, nothing else undone *)
+   one word *)
 Definition reread (w : str) : str := strip_quotes (bash_quote w).
 
 (* ------------------------------------------------------------------ spec *)
